@@ -83,6 +83,8 @@ class Merged(object):
         with open(res['facts']) as f:
             for n, ln in enumerate(f, 1):
                 ln = ln.rstrip('\n')
+                if getattr(self, 'keep', None) and not self.keep(ln):
+                    continue
                 i = self.index.get(ln)
                 if i is None:
                     self.index[ln] = len(self.lines)
